@@ -1,9 +1,14 @@
 """C20 - a failed or inaccurate quantile-regression solve is retried, not fatal (E-FAULT)."""
+import json
+import os
+import subprocess
+import sys
 from collections import Counter
 
 from .. import election as E
 from .. import fakes
 from .. import scen as S
+from ..env import VERIF
 from ..runner import sha
 
 PROPERTY = "C20"
@@ -15,7 +20,7 @@ RULE = (
     "fit_model; the fault is injected inside the solve of one quantile, where the real failures happen), lambda in {0, 0.5}, with/without a covariate: a fault of kind {SolverError, cvxpy inaccuracy UserWarning} is injected at "
     "every position k in 1..K (thorough: every pair of positions as well). Oracle: run completes; right after the failed "
     "attempt the same solver is called once more with the same quantile, weights, lambda, intercept flag and "
-    "normalize_weights=False; tables equal the fault-free run (+-1 vote). non-trivial = a fault was actually delivered"
+    "normalize_weights=False; tables equal the fault-free run (+-1 vote). Also: the same with the library's logger at INFO / DEBUG / CRITICAL, and in fresh interpreters whose host application installed its own UserWarning filter (ignore / always / default / ignore everything) before importing the library. non-trivial = a fault was actually delivered"
 )
 ASSUMPTIONS = [
     "the inaccuracy warning is emitted exactly as the *installed* cvxpy emits it (validated in every worker against a genuine under-converged solve: same category, attributed to the same file); the repository's own warnings filter must turn it into the exception",
@@ -75,14 +80,76 @@ def cases(tier, seed):
                 for k in range(j + 1, K + 1):
                     for kinds in (("solver_error", "inaccurate"), ("inaccurate", "solver_error"), ("solver_error", "solver_error")):
                         out.append(dict(base, plan={str(j): kinds[0], str(k): kinds[1]}))
+    # the host application configured Python's warnings machinery before it imported the library (an 'ignore' / 'always' /
+    # 'default' filter for UserWarning, as python -W or PYTHONWARNINGS would install): one fresh interpreter per host
+    # configuration and estimator, every position of the inaccuracy warning and one solver error in it
+    picks = [i for i, (cfg, n) in enumerate(_configs()) if cfg["estimands"] == ["turnout", "dem"] and cfg["alphas"] == [0.7] and cfg["features"] and cfg["model_parameters"]]
+    for host in HOST_PRELUDES:
+        for ci in picks:
+            out.append({"kind": "host", "host": host, "config_index": ci, "seed": seed})
     return out
 
 
+HOST_PRELUDES = {
+    "ignore UserWarning": "warnings.filterwarnings('ignore', category=UserWarning)",
+    "always UserWarning": "warnings.filterwarnings('always', category=UserWarning)",
+    "default for everything": "warnings.simplefilter('default')",
+    "ignore everything": "warnings.simplefilter('ignore')",
+}
+
+CHILD = r"""
+import json, sys, warnings
+%(prelude)s
+sys.path.insert(0, %(verif)r)
+from mc import env
+env.apply_env({})
+env.import_elexmodel()
+from mc import fakes
+fakes.install_fake_boto3()
+from mc.checks import c20
+c20.worker_init()
+out = []
+for case in json.loads(%(cases)r):
+    r = c20.evaluate(case)
+    out.append({"violations": r["violations"], "cov": r["cov"], "nontrivial": r["nontrivial"]})
+print("C20CHILD " + json.dumps(out))
+"""
+
+
+def _host_case(case):
+    cfg, n = _configs()[case["config_index"]]
+    K = len(cfg["estimands"]) * (1 + 2 * len(cfg["alphas"]))
+    base = dict(seed=case["seed"], bg=dict(n=n, layout="AA2", partial=0), probes=[["nonrep_partial", "pop0"], ["nonrep0", "pop1"], ["nonrep_partial", "newcounty"]], cfg=cfg)
+    inner = [dict(base, plan={str(k): "inaccurate"}) for k in range(1, K + 1)] + [dict(base, plan={"1": "solver_error"})]
+    code = CHILD % {"prelude": HOST_PRELUDES[case["host"]], "verif": VERIF, "cases": json.dumps(inner)}
+    env = dict(os.environ)
+    env.pop("MC_REEXEC", None)
+    env.pop("PYTHONWARNINGS", None)
+    p = subprocess.run([sys.executable, "-c", code], capture_output=True, text=True, env=env, cwd=VERIF, timeout=900)
+    line = [l for l in p.stdout.splitlines() if l.startswith("C20CHILD ")]
+    if p.returncode != 0 or not line:
+        raise RuntimeError(f"child interpreter failed: rc={p.returncode} {p.stderr[-800:]}")
+    cov = Counter()
+    V = {}
+    for r in json.loads(line[0][len("C20CHILD "):]):
+        for k, v in r["cov"].items():
+            cov[k] += v
+        for v in r["violations"]:
+            sig = v["sig"] + ":host-filter"
+            V.setdefault(sig, {"sig": sig, "msg": f"host application installed \"{case['host']}\" before importing the library: " + v["msg"]})
+        cov["runs_under_host_warning_filters"] += 1
+    return {"violations": list(V.values()), "cov": dict(cov), "outcome": sha(sorted(V)), "nontrivial": True, "transitions": len(inner) * 2}
+
+
 def describe(case):
+    if case.get("kind") == "host":
+        return case
     return {"plan": case["plan"], "log_level": case.get("log_level", "default"), "cfg": {k: case["cfg"][k] for k in ("pi_method", "estimands", "alphas", "features", "model_parameters")}}
 
 
 def evaluate(case):
+    if case.get("kind") == "host":
+        return _host_case(case)
     cov = Counter()
     units = S.build_units(case)
     cfg = case["cfg"]
@@ -183,4 +250,4 @@ def evaluate(case):
     }
 
 
-REQUIRED_COUNTERS = {"faults_delivered": 100, "fault_on_median": 10, "fault_on_lower": 10, "fault_on_upper": 10, "runs_with_log_level_INFO": 20, "runs_with_log_level_DEBUG": 20}
+REQUIRED_COUNTERS = {"faults_delivered": 100, "fault_on_median": 10, "fault_on_lower": 10, "fault_on_upper": 10, "runs_with_log_level_INFO": 20, "runs_with_log_level_DEBUG": 20, "runs_under_host_warning_filters": 40}
